@@ -30,30 +30,32 @@ type Chunk struct {
 
 // Op is one abstract operation; unused fields keep their zero value.
 type Op struct {
-	Op       string `json:"op"`
-	Repo     string `json:"repo"`
-	Dig      string `json:"dig"`
-	Body     string `json:"body"`
-	Ref      Ref    `json:"ref"`
-	Ctype    string `json:"ctype"`
-	CtVar    string `json:"ctvar"`
-	LenKnown bool   `json:"lenKnown"`
-	DParam   string `json:"dparam"`
-	Sess     string `json:"sess"`
-	Cr       string `json:"cr"`
-	St       string `json:"st"`
-	Chunk    Chunk  `json:"chunk"`
-	Alg      string `json:"alg"`
-	Mount    string `json:"mount"`
-	From     string `json:"from"`
-	N        string `json:"n"`
-	Last     int    `json:"last"`
-	Subject  string `json:"subject"`
-	Filter   string `json:"filter"`
-	Accept   string `json:"accept"`
-	Range    string `json:"range"`
-	Method   string `json:"method"`
-	Which    string `json:"which"`
+	Op       string  `json:"op"`
+	Repo     string  `json:"repo"`
+	Dig      string  `json:"dig"`
+	Body     string  `json:"body"`
+	Ref      Ref     `json:"ref"`
+	Ctype    string  `json:"ctype"`
+	CtVar    string  `json:"ctvar"`
+	LenKnown bool    `json:"lenKnown"`
+	DParam   string  `json:"dparam"`
+	Sess     string  `json:"sess"`
+	Cr       string  `json:"cr"`
+	St       string  `json:"st"`
+	Chunk    Chunk   `json:"chunk"`
+	Alg      string  `json:"alg"`
+	Mount    string  `json:"mount"`
+	From     string  `json:"from"`
+	N        string  `json:"n"`
+	NI       int     `json:"ni"`
+	NC       string  `json:"nc"`
+	Last     int     `json:"last"`
+	Subject  string  `json:"subject"`
+	Filter   string  `json:"filter"`
+	Accept   string  `json:"accept"`
+	Range    string  `json:"range"`
+	Method   string  `json:"method"`
+	Which    string  `json:"which"`
 	Raw      *RawReq `json:"raw,omitempty"`
 }
 
@@ -100,13 +102,13 @@ type sessInfo struct {
 
 // Exec holds the per-trace execution state of the harness (client side knowledge only).
 type Exec struct {
-	Cat   *Catalogue
-	Srv   *Srv
-	Rng   *rand.Rand
-	Sess  map[string]*sessInfo
-	NSess int
-	Cuts  map[string][2]int
-	Actor string
+	Cat         *Catalogue
+	Srv         *Srv
+	Rng         *rand.Rand
+	Sess        map[string]*sessInfo
+	NSess       int
+	Cuts        map[string][2]int
+	Actor       string
 	MaxRefPages int
 }
 
@@ -182,13 +184,13 @@ func (e *Exec) bodyBytes(body string) []byte {
 }
 
 var badDigests = map[string]string{
-	"bad:short": "sha256:abcd",
-	"bad:alg":   "md5:d41d8cd98f00b204e9800998ecf8427e",
-	"bad:upper": "sha256:" + strings.Repeat("A", 64),
+	"bad:short":   "sha256:abcd",
+	"bad:alg":     "md5:d41d8cd98f00b204e9800998ecf8427e",
+	"bad:upper":   "sha256:" + strings.Repeat("A", 64),
 	"bad:nocolon": strings.Repeat("a", 64),
-	"bad:empty": "",
-	"bad:long":  "sha256:" + strings.Repeat("a", 65),
-	"bad:path":  "sha256:../../../../etc/passwd",
+	"bad:empty":   "",
+	"bad:long":    "sha256:" + strings.Repeat("a", 65),
+	"bad:path":    "sha256:../../../../etc/passwd",
 }
 
 func (e *Exec) digReal(s string) string {
